@@ -5,7 +5,7 @@
  *
  * usage: drv_alloc <cases.txt> <out.ndjson> [from-line]
  *   each line:  <scenario> <k> [k2]  k = 0: no failure (counts the allocations of the scenario); k2: a second failure
- *   scenarios:  setup get block1 block2 observe uri async oscore
+ *   scenarios:  setup get block1 block2 observe uri async oscore rawblock1 (a scripted peer uploads three Block1 blocks without Size1)
  */
 #include "simnet.h"
 #include <string.h>
@@ -268,6 +268,25 @@ static void sc_uri(void) {
   }
 }
 
+/* a scripted peer: Block1 PUT /r in 16-byte blocks, no Size1 option, so the reassembly buffer grows block by block */
+static void raw_block1(void) {
+  coap_address_t peer;
+  unsigned num;
+  sim_addr(&peer, "127.0.0.1", 24001);
+  for (num = 0; num < 3; num++) {
+    uint8_t b[64];
+    size_t n = 0, i;
+    b[n++] = 0x41; b[n++] = 3; b[n++] = 0x55; b[n++] = (uint8_t)(0x10 + num);
+    b[n++] = 0x77;
+    b[n++] = 0xb1; b[n++] = 'r';
+    b[n++] = 0xd1; b[n++] = 27 - 11 - 13; b[n++] = (uint8_t)((num << 4) | (num < 2 ? 8 : 0));
+    b[n++] = 0xff;
+    for (i = 0; i < 16; i++) b[n++] = pat(num * 16 + i);
+    sim_inject(&peer, &srv_addr, b, n, 0, -1);
+    sim_run(sim_now + 50);
+  }
+}
+
 static void scenario(const char *sc) {
   if (!strcmp(sc, "uri")) { sc_uri(); return; }
   if (!env_up(!strcmp(sc, "oscore"))) { fputs("{\"e\":\"Ret\",\"op\":\"env_up\",\"ok\":0}\n", sim_trace); return; }
@@ -287,6 +306,8 @@ static void scenario(const char *sc) {
     if (res_o) { coap_resource_notify_observers(res_o, NULL); sim_run(sim_now + 1000); }
     exchange(1, COAP_REQUEST_CODE_GET, "o", 0, 1, 69, 1000);
     if (res_o) { coap_resource_notify_observers(res_o, NULL); sim_run(sim_now + 100000); }
+  } else if (!strcmp(sc, "rawblock1")) {
+    raw_block1();
   } else if (!strcmp(sc, "async")) {
     exchange(1, COAP_REQUEST_CODE_GET, "a", 0, -1, 69, 100000);
   }
